@@ -45,18 +45,21 @@ macro_rules! sd {
         crate::proof!{ #[kani::unwind($unw)] fn [<c07_ $tier _depth $d _limit $lim _ $pn>]() { skip::skip_depth::<$p, $d, $lim>() } }
     }};
 }
-sd!(q, PBin, bin, 0, 1, 5);
-sd!(q, PBin, bin, 0, 2, 5);
-sd!(q, PBin, bin, 1, 2, 5);
-sd!(q, PBin, bin, 1, 3, 5);
-sd!(t, PBin, bin, 2, 3, 5);
-sd!(t, PBin, bin, 2, 4, 5);
-sd!(t, PLe, le, 1, 2, 5);
-sd!(t, PLe, le, 1, 3, 5);
-sd!(t, PCompact, compact, 1, 2, 5);
-sd!(t, PCompact, compact, 1, 3, 5);
+// unwind bounds are as tight as the concrete input allows (struct field loop: fields + stop):
+// CBMC's constant propagation does not see that a recursive call returned Err, so symex keeps
+// unrolling the field loop up to the bound; the solver then proves the unwinding assertion.
+sd!(q, PBin, bin, 0, 1, 3);
+sd!(q, PBin, bin, 0, 2, 3);
+sd!(q, PBin, bin, 1, 2, 3);
+sd!(q, PBin, bin, 1, 3, 3);
+sd!(t, PBin, bin, 2, 3, 3);
+sd!(t, PBin, bin, 2, 4, 3);
+sd!(t, PLe, le, 1, 2, 3);
+sd!(t, PLe, le, 1, 3, 3);
+sd!(t, PCompact, compact, 1, 2, 4);
+sd!(t, PCompact, compact, 1, 3, 4);
 // iterative unchecked skipper across its SmallVec inline capacity of 8
-sd!(q, PUnchecked, unchecked, 1, 64, 12);
+sd!(t, PUnchecked, unchecked, 1, 64, 8);
 sd!(t, PUnchecked, unchecked, 7, 64, 12);
 sd!(t, PUnchecked, unchecked, 8, 64, 12);
 sd!(t, PUnchecked, unchecked, 9, 64, 12);
@@ -80,11 +83,11 @@ macro_rules! sa_types {
         sa!($tier, $p, $pn, 16, uuid, $n, $unw);
     };
 }
-sa_types!(q, PBin, bin, 6, 7);
-sa_types!(t, PBin, bin, 3, 7);
-sa_types!(t, PBin, bin, 10, 12);
-sa_types!(t, PLe, le, 6, 7);
-sa_types!(t, PCompact, compact, 6, 7);
+sa_types!(q, PBin, bin, 6, 2);
+sa_types!(t, PBin, bin, 3, 2);
+sa_types!(t, PBin, bin, 10, 2);
+sa_types!(t, PLe, le, 6, 2);
+sa_types!(t, PBin, bin, 17, 2);
 crate::proof!{ #[kani::unwind(5)] fn c07_q_void_bin() { skip::skip_void::<PBin>() } }
 crate::proof!{ #[kani::unwind(5)] fn c07_t_void_compact() { skip::skip_void::<PCompact>() } }
 crate::proof!{ #[kani::unwind(5)] fn c07_t_void_unchecked() { skip::skip_void::<PUnchecked>() } }
